@@ -32,6 +32,26 @@ CLAIMS = {
              'concurrent with other calls; user key/value operations do not touch the container.',
         technique='lockset / access-conflict analysis over all AST paths with helpers inlined',
         design='6.C07'),
+    'C09': dict(
+        level='proof',
+        text='Finite decision table, decided exhaustively: the allow enumerators and insert_allowed/update_allowed are '
+             'constant-evaluated from the AST for all three modes; every path of every insert / insert_range body (helpers '
+             'inlined, all ten containers) is classified by presence x update_allowed x insert_allowed x expired and its '
+             'abstract effect class (BIND / UPDATE / none) must equal the table row for every completion of the path '
+             'valuation; rejected rows must be effect-free; the returned bool and the range tally must change exactly on the '
+             'rows that write.',
+        note='Decides which rows write and what is reported; that the written value/deadline are the right ones is C01/C05, '
+             'and that PRESENT means live in ut_map/ut_set (purge first) is C02/C04/C17. Trusted: clang AST, stdmodel.py.',
+        technique='exhaustive path enumeration + semantic-predicate classification against a finite decision table; AST constant evaluation',
+        design='6.C09'),
+    'C19': dict(
+        level='proof',
+        text='Write-freedom: every path whose valuation is a peek hit, a miss, a rejected insert or an absent-key erase has an '
+             'empty abstract effect list on container state (bit-identical state => every continuation unchanged); tlru/utlru '
+             'lookups of an expired key may only remove that very entry; ut_map/ut_set may only run the expired-prefix purge.',
+        note='Trusted: clang AST; std-library purity table (stdmodel.py); copying a value out does not modify it.',
+        technique='effect (write-set) analysis over all AST paths with helpers inlined',
+        design='6.C19'),
 }
 
 NOT_YET = 'check not built yet in this session (static rule planned in DESIGN.md section 6); not claimed until it exists'
